@@ -104,15 +104,16 @@ def run(rep, tier):
     quick = tier == "quick"
     wd = work_dir("C19", "run", clean=True)
     cfg = "C19_Calc_small.cfg" if quick else "C19_Calc_deep.cfg"
-    rep.rule = ("TLC explores the calculation machine over every integrand of degree <= %s with small integer coefficients in expanded / "
-                "factored / power / scaled shapes, integer bounds in both orders, derivatives and finite sums, with the reference rules "
-                "Linearity, power rule, EvalAt, ExpandPolynomial, Simplify, linear Substitution, IntegrationByParts, SplitRegion, "
-                "DerivativeSimplify, SummationSimplify for up to 3 steps; every transition is replayed through the real Rule.eval. Plus "
-                "seeded random inputs (0-2 parameters with conditions, rational coefficients, rational functions, nested integrals, EvalAt, "
-                "sums, indefinite integrals; 1-3 chained steps of 20 rules with generated parameters; %d directed side-condition cases), all "
-                "expression forms for print/parse and normalisation, and every recorded step of the example files. Non-trivial = the value "
-                "clause compared both sides at one admissible grid point at least (rule / norm events) or the structural clause was "
-                "evaluated (pp / norm events); distinct by event content." % ("2" if quick else "3", 36))
+    rep.rule = ("TLC explores the calculation machine (start expression, up to 3 steps) over every integrand of degree <= %s with "
+                "coefficients in {-1,1,2} in expanded / factored / power / scaled shapes, %s integer bound pairs (both orders), as "
+                "definite integrals, derivatives and finite sums, with the reference rules Linearity, power rule, EvalAt, ExpandPolynomial, "
+                "Simplify, linear Substitution (%s slopes/offsets), IntegrationByParts, SplitRegion, DerivativeSimplify, SummationSimplify; every "
+                "transition is replayed through the real Rule.eval. Plus %d seeded random calculations (0-2 parameters with conditions, rational "
+                "coefficients, rational functions, nested integrals, EvalAt, sums, indefinite integrals; 1-3 chained steps of 20 rules with "
+                "generated parameters), 36 directed side-condition cases, random expressions of all forms for print/parse and normalisation, "
+                "and every recorded step of the example files. Non-trivial = the value clause compared both sides at one admissible grid "
+                "point at least (rule / norm events) or the structural clause was evaluated (pp / norm events); distinct by event content."
+                % (("2", "2", "4", 400) if quick else ("3", "6", "6", 15000)))
     rep.assumptions = [
         "RESTRICTED CLAIM: value preservation is judged only on the exactly evaluable fragment: rational constants, variables, + - * /, "
         "integer powers, abs, definite and indefinite integrals whose integrand is syntactically a polynomial in the integration variable "
@@ -146,7 +147,7 @@ def run(rep, tier):
     def code_driven():
         """seeded random inputs and the example files: drivers, then one validation run (while TLC explores C19_Calc)"""
         with ThreadPoolExecutor(max_workers=2) as ex2:
-            f1 = ex2.submit(run_driver, "c19", ["rand", ev_rand, 400 if quick else 6000, seed()], timeout=7200)
+            f1 = ex2.submit(run_driver, "c19", ["rand", ev_rand, 400 if quick else 15000, seed()], timeout=7200)
             f2 = ex2.submit(run_driver, "c19", ["examples", ev_ex], timeout=7200)
             f1.result()
             f2.result()
@@ -212,8 +213,8 @@ def run(rep, tier):
                                   "examined by value": sum(1 for e in exs if e["tid"] in nt),
                                   "result differs from the stored one (divergence)": len(v3["divergences"])}
     tr = rep.notes["traces"]
-    require(tr["replay"]["nontrivial"] >= (1000 if quick else 8000), "C19: too few examined replayed steps (vacuity guard)")
-    require(tr["rand"]["nontrivial"] >= (400 if quick else 8000), "C19: too few examined random steps (vacuity guard)")
+    require(tr["replay"]["nontrivial"] >= (5000 if quick else 40000), "C19: too few examined replayed steps (vacuity guard)")
+    require(tr["rand"]["nontrivial"] >= (800 if quick else 20000), "C19: too few examined random steps (vacuity guard)")
     require(len(exs) >= 1000 and rep.notes["example_steps"]["examined by value"] >= 15, "C19: example files not replayed (vacuity guard)")
     for b in ("Linearity", "DefiniteIntegralIdentity", "Substitution", "IntegrationByParts", "SplitRegion", "ExpandPolynomial",
               "DerivativeSimplify", "FullSimplify", "Simplify"):
